@@ -4,11 +4,11 @@ import jobs as J
 
 PID = "C10"
 PROPS = "props/C10.v"
-GOTAB = ["ean.go", "codabar.go", "twooffive.go", "code128.go", "code39.go", "code93.go", "datamatrix.go", "qr.go", "gf.go", "aztec.go"]
+GOTAB = ["ean.go", "codabar.go", "twooffive.go", "code128.go", "code39.go", "code93.go", "datamatrix.go", "qr.go", "gf.go", "aztec.go", "pdf417.go"]
 GOFILES = ["all.go"]
-EXTRACT = ["base", "utf8", "gf", "ean", "codabar", "twooffive", "code128", "code39", "code93", "datamatrix", "qr", "aztec", "all"]
+EXTRACT = ["base", "utf8", "gf", "ean", "codabar", "twooffive", "code128", "code39", "code93", "datamatrix", "qr", "aztec", "pdf417", "all"]
 HANDLERS = ["all_extra.ml", "h_all.ml"]
-ENCODERS = ["ean", "codabar", "c128", "c128n", "c39", "c93", "tof", "qr", "dm", "az"]
+ENCODERS = ["ean", "codabar", "c128", "c128n", "c39", "c93", "tof", "qr", "dm", "az", "pdf"]
 
 RULE = ("every public encoder entry point (plain variants; WithColor variants are covered by C11): each byte value 0..255 alone and inside a "
         "valid context, runes around U+007F / U+00F0..U+00F5 / U+FFFD / invalid UTF-8, lengths 0, 1, capacity and capacity+1 (QR: every "
@@ -110,6 +110,18 @@ def cases(tier, rng):
         for n in (0, 1, 50, 500, 1000, 1800, 1914, 1915, 3000, 3067, 3068) if tier == "thorough" else (0, 50, 700, 1914, 1915, 3067, 3068):
             add("acc az %d 0 %s" % (pct, J.hx("A" * n)))
             add("acc az %d 0 %s" % (pct, J.hx(b"\xe9" * (n // 2))))
+    # PDF417: every security level byte incl. undefined ones, sizes around the 900-codeword limit per level
+    for lvl in list(range(0, 12)) + [100, 255]:
+        for n in (0, 1, 10, 200):
+            add("acc pdf %d %s" % (lvl, J.hx("A" * n)))
+    for lvl in range(0, 9):
+        k = 2 ** (lvl + 1)
+        room = 900 - 1 - k           # data codewords that still fit
+        for d in ((-1, 0, 1) if room > 2 else (0,)):
+            # text: 2 characters per codeword; bytes: 6 per 5 codewords + latch; digits: 44 per 15 + latch
+            add("acc pdf %d %s" % (lvl, J.hx("A" * max(0, 2 * (room + d)))))
+            add("acc pdf %d %s" % (lvl, J.hx(b"\x80" * max(0, 6 * ((room + d - 1) // 5)))))
+            add("acc pdf %d %s" % (lvl, J.hx("7" * max(0, 44 * ((room + d - 1) // 15)))))
     # sign characters in numeric mode (repaired defect), mixtures
     for t in ["+12", "-0", "+1", "1+2", "12a", "1 2", "０１２"]:
         for mode in (0, 1):
@@ -124,6 +136,11 @@ def cases(tier, rng):
 
 def nontrivial(line, out):
     return out.startswith("OK")
+
+
+def compare(impl_out, model_out):
+    # PDF417: the model lists the result for every legal column count
+    return impl_out == model_out or (model_out is not None and " || " in model_out and impl_out in model_out.split(" || "))
 
 
 def oracle_lines(lines, outs):
